@@ -16,7 +16,7 @@ FUNCS = ("cutplace.validio.Writer.__init__", "cutplace.validio.Writer.write_row"
          "cutplace.fields.AbstractFieldFormat.validated")
 WIDTHS = (2, 1)
 FIXED_CID = ("d,format,fixed\nd,line delimiter,%s\nd,header,%d\nf,a,,,2,Text\nf,b,,X,1,Text\n")
-SEP = {"lf": "\n", "crlf": "\r\n", "cr": "\r"}
+SEP = {"lf": "\n", "crlf": "\r\n", "cr": "\r", "none": ""}
 
 
 class WriteStream:
@@ -680,7 +680,7 @@ def native_delimited_roundtrip():
 def build(tier, seed):
     q = []
     OK, BAD = ("ab", "c"), ("toolong", "")
-    fixed = [(1, "lf", (2,), {}), (2, "lf", (2, 2), {1: OK}), (2, "crlf", (2, 2), {0: BAD}), (2, "cr", (2, 2), {0: OK}),
+    fixed = [(1, "lf", (2,), {}), (2, "none", (2, 2), {0: OK}), (2, "lf", (2, 2), {1: OK}), (2, "crlf", (2, 2), {0: BAD}), (2, "cr", (2, 2), {0: OK}),
              (2, "lf", (1, 2), {1: OK}), (2, "lf", (3, 2), {1: OK}), (3, "lf", (2, 2, 2), {0: OK, 1: BAD})]
     if tier == "thorough":
         fixed += [(2, "crlf", (2, 1), {}), (3, "lf", (2, 2, 2), {1: BAD, 2: OK}), (3, "cr", (2, 2, 2), {0: OK, 2: OK}),
